@@ -29,6 +29,7 @@ pub mod util;
 
 pub mod k1_lib;
 mod k1_handles;
+pub mod k1_types;
 mod k2_insert;
 mod k2_remove;
 mod k2_range;
